@@ -609,6 +609,12 @@ class BitStream(ConstBitStream, bitstring.BitArray):
             self._bitstore = self._bitstore._copy()
             self._bitstore.immutable = False
 
+    def __setattr__(self, attribute, value) -> None:
+        super().__setattr__(attribute, value)
+        if not attribute.startswith('_') and self._pos > len(self):
+            # A property such as s.uint8 or s.bin was given a value shorter than the bit position.
+            self._pos = 0
+
     def __copy__(self) -> BitStream:
         """Return a new copy of the BitStream."""
         s_copy = object.__new__(BitStream)
